@@ -4,7 +4,8 @@ Scenario :  <guard 0|1> <node_size> <nfail> <failing underlying-call index>*  <o
             (id = index of the op that produced the block; :dm = detector-level allocMemory with an inline record)
 Observation: <guard> <sizeof record> then per op
   | kind ncalls (ckind size ok)* addr%16 offset-in-region region-size recordkind recordval digest tracked-total reports
-  and  | :end total reports  after the harness released every remaining block.
+  and  | :end nlive (id digest)* total reports : the blocks still live (newest first) with their content, read back before the
+  harness releases every remaining block; total / reports after that release.
 kind: 0 skipped 1 NULL 2 bad_alloc 3 pointer 4 void.  recordkind 1 = inline at offset recordval, 2 = own region of size recordval."""
 import os, subprocess, hashlib, tempfile
 import vlib
